@@ -425,7 +425,23 @@ def main():
                 orig = os.path.join(cdir, os.path.basename(m.group(3)))
                 violations.append((orig, m.group(4)))
             if j.rc not in (0, 1) or (j.rc == 1 and not VIOL_RE.search(j.out)):
-                infra.append(f"corpus replay exit {j.rc}:\n{j.out[-1500:]}")
+                # the process replaying the regression cases died (fatal error, kill): replay them one
+                # by one, each in its own process, to name the case
+                attributed = False
+                if not j.timed_out:
+                    for f in cfiles:
+                        one = run_replay(replay_bin, f, rundir, "corpus1-" + os.path.basename(f), excludes, timeout=300)
+                        if one.timed_out and not cfg.get("hang_is_violation"):
+                            continue
+                        if one.rc not in (0, 1):
+                            violations.append((f, "worker process died while replaying this regression case: " + last_lines(one.out, 12)))
+                            attributed = True
+                        elif one.rc == 1:
+                            for m in VIOL_RE.finditer(one.out):
+                                violations.append((f, m.group(4)))
+                                attributed = True
+                if not attributed:
+                    infra.append(f"corpus replay exit {j.rc}:\n{j.out[-1500:]}")
 
         # ---- stage 3: generated search
         jobs = plan_jobs(pid, tier, seed, rundir, excludes, binaries)
